@@ -163,6 +163,16 @@ func vc_C13_normal() {
 			vfAssume(vfAnd(c >= -1, c <= 1))
 		}
 	}
+	if vfCase("size", 2) == 1 {
+		// tiny triangles: Vec.Normalize is replaced by its contract (proved by vc_C13_normalize_contract):
+		// the result is a*k with k > 0 and k^2 |a|^2 = 1
+		vfStub("(github.com/deadsy/sdfx/vec/v3.Vec).Normalize", func(a v3.Vec) v3.Vec {
+			k := vfReal("normalize.k")
+			vfAssume(k > 0)
+			vfAssume(k*k*(a.X*a.X+a.Y*a.Y+a.Z*a.Z) == 1)
+			return v3.Vec{X: a.X * k, Y: a.Y * k, Z: a.Z * k}
+		})
+	}
 	n := t.Normal()
 	tol := vfTol(1e-6, 1e-7)
 	vfReach("normal")
@@ -202,4 +212,21 @@ func vc_C12_goroutine_ledger() {
 	vfReach("three renders")
 	vfAssert(k2 <= k1, "a second render leaves no more goroutines alive than the first")
 	vfAssert(k3 <= k2, "a third render leaves no more goroutines alive than the second")
+}
+
+// contract of v3.Vec.Normalize used above: for a != 0 the result is a*k with k > 0 and k^2 |a|^2 = 1
+func vc_C13_normalize_contract() {
+	a := v3.Vec{X: vfReal("a.x"), Y: vfReal("a.y"), Z: vfReal("a.z")}
+	a2 := a.X*a.X + a.Y*a.Y + a.Z*a.Z
+	vfAssume(a2 > 0)
+	vfAssume(a2 <= 1e6)
+	r := a.Normalize()
+	vfReach("normalize")
+	// r = a*k componentwise for one k: cross products vanish and the projection is positive
+	vfAssert(r.X*a.Y == r.Y*a.X, "Normalize: result parallel to the argument (xy)")
+	vfAssert(r.Y*a.Z == r.Z*a.Y, "Normalize: result parallel to the argument (yz)")
+	vfAssert(r.X*a.Z == r.Z*a.X, "Normalize: result parallel to the argument (xz)")
+	vfAssert(r.X*a.X+r.Y*a.Y+r.Z*a.Z > 0, "Normalize: result points the same way")
+	vfAssert((r.X*r.X+r.Y*r.Y+r.Z*r.Z)*a2 == (r.X*a.X+r.Y*a.Y+r.Z*a.Z)*(r.X*a.X+r.Y*a.Y+r.Z*a.Z), "Normalize: |r|^2 |a|^2 = (r.a)^2")
+	vfAssert((r.X*a.X+r.Y*a.Y+r.Z*a.Z)*(r.X*a.X+r.Y*a.Y+r.Z*a.Z) == a2, "Normalize: (r.a)^2 = |a|^2, hence |r| = 1")
 }
